@@ -1,4 +1,5 @@
 import TexSoupModel.Edit
+import TexSoupModel.ArgsEdit
 /-!
 # Driver request `edit` (differential check of the edit model against `TexNode`)
 
@@ -30,6 +31,16 @@ Strings travel as decimal code points joined by `.` (`-` is the empty string), a
   * `ren P name`       – `node.name = name` (encoded)
   * `str P string`     – `node.string = string` (encoded)
   * `args P M,M..`     – `node.args = TexArgs([..])`
+
+  * `aop P <sub> ..`   – an operation on the node's argument list itself (`TexArgs`), answered
+    as `.setArgs P l` with `l` the result of the same operation on a plain list
+    (`ArgsEdit.lean`; `FAIL` when the list operation raises).  `<sub>`: `app M`, `ext M,M..`,
+    `ins i M`, `pop i`, `rem i` (`args.remove(args[i])`), `rev`, `clr`, `rs` (`args = args[::-1]`),
+    `sl i j` (`args = args[i:j]`), `perm i,j,..` (`_` = empty), and the self-assignment forms
+    `same`, `srev`, `spop i`, `sins i M`, `sapp M` (`a = node.args; ..; node.args = a`).  Indices
+    may be negative (`-3`).  Here `s:<encoded string>` is an unparsed argument string that
+    `TexArgs` turns into a group (`{z}`, `[w]`; whitespace is kept out of the list; anything
+    else raises), other material must be a group or a command to enter the list.
 
 Answer: `EDIT r1;r2;...;rn;[tree]` where `ri` is the encoded `str(soup)` after op `i`, or
 `FAIL` if the model rejects the op (`applyEditE = none`; the document is unchanged), and
@@ -113,8 +124,48 @@ def parseMat (doc : List Expr) (w : String) : Option Expr :=
 def parseMats (doc : List Expr) (w : String) : Option (List Expr) :=
   if w == "_" then some [] else (w.splitOn ",").mapM (parseMat doc)
 
+def parseInt (w : String) : Option Int :=
+  if w.startsWith "-" then (w.drop 1).toNat?.map (fun n => -(n : Int)) else w.toNat?.map (fun n => (n : Int))
+
+/-- Material of a `TexArgs` operation: `none` = `TypeError`, `some none` = accepted but kept out
+of the list proper, `some (some e)` = enters the list. -/
+def parseArgMat (doc : List Expr) (w : String) : Option (Option Expr) :=
+  if w.startsWith "s:" then
+    match decStr (w.drop 2).toString with
+    | some s => if isBlank s then some none else (parseGroup s).map some
+    | none => none
+  else match parseMat doc w with
+    | some (.text s _) => if isBlank s then some none else (parseGroup s).map some
+    | some e => some (if isArgObj e then some e else none)
+    | none => none
+
+def parseArgMats (doc : List Expr) (w : String) : Option (List Expr) :=
+  if w == "_" then some [] else
+    ((w.splitOn ",").mapM (parseArgMat doc)).map (fun l => l.filterMap id)
+
+def parseListOp (doc : List Expr) : List String → Option ListOp
+  | ["app", m] | ["sapp", m] => (parseArgMats doc m).map ListOp.extend
+  | ["ext", m] => (parseArgMats doc m).map ListOp.extend
+  | ["ins", i, m] | ["sins", i, m] => match parseInt i, parseArgMat doc m with
+    | some i, some (some e) => some (.insert i e)
+    | some _, some none => some .same
+    | _, _ => none
+  | ["pop", i] | ["spop", i] => (parseInt i).map ListOp.pop
+  | ["rem", i] => (parseInt i).map ListOp.removeAt
+  | ["rev"] | ["srev"] | ["rs"] => some .reverse
+  | ["clr"] => some .clear
+  | ["same"] => some .same
+  | ["sl", i, j] => match parseInt i, parseInt j with
+    | some i, some j => some (.slice i j)
+    | _, _ => none
+  | ["perm", idx] => if idx == "_" then some (.perm []) else ((idx.splitOn ",").mapM (fun (x : String) => x.toNat?)).map ListOp.perm
+  | _ => none
+
 def parseOp (doc : List Expr) (w : String) : Option EditOp :=
   match w.splitOn " " with
+  | "aop" :: p :: rest => match parsePath p, parseListOp doc rest with
+    | some p, some op => argsOpEdit doc p op
+    | _, _ => none
   | ["del", p] => (parsePath p).map EditOp.delete
   | ["rep", p, m] => match parsePath p, parseMats doc m with
     | some p, some m => some (.replace p m)
